@@ -3,8 +3,9 @@
   (`Gen.Imp.OverlapResult_*`) against the hand-written model (`Model/Lookup.lean`).
 
   Layout: (1) facts about the run-time support (`PyRt.pop`, `pyGet`, `PyRt.slice`, `PyRt.sliceRevFrom`, `PyRt.setAt`) at the
-  indices `0`, `-1`, `1:`, `-2::-1` the source uses; (2) the gap-skipping loops (`while` with `pop`, `for … break`) against
-  `popLeadingGaps` / `leadingGapLength`; (3) the seven tie lemmas.
+  indices `0`, `-1`, `1:`, `-2::-1` the source uses; (2) the gap-skipping loops (`while` with `pop`, `for … break`, `for … break` that counts + `del rows[:n]`)
+  against `popLeadingGaps` / `leadingGapLength`; (3) the seven tie lemmas (`discard_start` through `withFuel`, which applies the
+  generated function to `fuel` only if it has that parameter).
 -/
 import AgpTpf.Gen.Imp
 set_option linter.unusedSimpArgs false
@@ -228,6 +229,56 @@ theorem forIn_gaps_sub {ρ : Type} (body : Row → Int → R (PyRt.Ctl Int ρ))
     | frag f => simp [PyRt.forIn, hf (.frag f) a rfl, leadingGapLength_frag]
     | gap g => simp only [PyRt.forIn, hg (.gap g) a rfl, ih, leadingGapLength_gap, Row.length]; congr 2; omega
 
+/-- the rows `popLeadingGaps` leaves = the rows after the leading run of gaps -/
+theorem popLeadingGaps_fst_eq_dropWhile (r : List Row) (a : Int) : (popLeadingGaps r a).1 = r.dropWhile Row.isGap := by
+  induction r generalizing a with
+  | nil => simp [popLeadingGaps_nil]
+  | cons x t ih =>
+    cases x with
+    | frag f => simp [popLeadingGaps_frag, List.dropWhile_cons, Row.isGap]
+    | gap g => rw [popLeadingGaps_gap, ih]; simp [List.dropWhile_cons, Row.isGap]
+
+theorem drop_takeWhile_length {α : Type} (p : α → Bool) (l : List α) : l.drop (l.takeWhile p).length = l.dropWhile p := by
+  induction l with
+  | nil => simp
+  | cons x t ih => by_cases hp : p x = true <;> simp [List.takeWhile_cons, List.dropWhile_cons, hp, ih]
+
+/-- `l[i:]` / `del l[:i]` for an index that is a natural number (however the source computes it) -/
+theorem slice_from_nat {α : Type} (l : List α) (i : Int) (k : Nat) (h : i = (k : Int)) :
+    PyRt.slice l (some i) none = l.drop k := by
+  subst h
+  have hc : PyRt.clampIdx l.length (k : Int) = min k l.length := by
+    have h1 : ¬ ((k : Int) < 0) := by omega
+    simp only [PyRt.clampIdx, h1, if_false, Int.toNat_natCast]
+  simp only [PyRt.slice, hc]
+  rw [List.take_of_length_le (by simp)]
+  by_cases hk : k ≤ l.length
+  · rw [show min k l.length = k by omega]
+  · rw [show min k l.length = l.length by omega, List.drop_eq_nil_of_le (Nat.le_refl _),
+      List.drop_eq_nil_of_le (show l.length ≤ k by omega)]
+
+/-- `del rows[:n_gaps]` where `n_gaps` is (whatever integer expression is equal to) the number of leading gaps -/
+theorem slice_from_leading_gaps (r : List Row) (i : Int) (h : i = ((r.takeWhile Row.isGap).length : Int)) :
+    PyRt.slice r (some i) none = r.dropWhile Row.isGap := by
+  rw [slice_from_nat r i _ h, drop_takeWhile_length]
+
+/-- `for row in rows: if not isinstance(row, Gap): break; removed += row.length; n_gaps += 1`:
+    the loop state is (sum of the lengths, count) of the leading run of gaps -/
+theorem forIn_gaps_add_count {ρ : Type} (body : Row → Int × Int → R (PyRt.Ctl (Int × Int) ρ))
+    (hg : ∀ r a n, r.isGap = true → body r (a, n) = .ok (.next (a + r.length, n + 1)))
+    (hf : ∀ r a n, r.isGap = false → body r (a, n) = .ok (.brk (a, n)))
+    (l : List Row) (a n : Int) :
+    PyRt.forIn l (a, n) body = .ok (.fell (a + leadingGapLength l, n + ((l.takeWhile Row.isGap).length : Int))) := by
+  induction l generalizing a n with
+  | nil => simp [PyRt.forIn, leadingGapLength_nil]
+  | cons x t ih =>
+    cases x with
+    | frag f => simp [PyRt.forIn, hf (.frag f) a n rfl, leadingGapLength_frag, Row.isGap]
+    | gap g =>
+      simp only [PyRt.forIn, hg (.gap g) a n rfl, ih, leadingGapLength_gap, Row.length, Row.isGap, List.takeWhile_cons,
+        if_true, List.length_cons]
+      congr 3 <;> omega
+
 /-! ### 3. the tie lemmas
 
   `R`-monad normal form: the generated code joins the branches of an `if` with `>>= fun j => …` and ends each in `.ok`; the model is
@@ -243,19 +294,44 @@ theorem R_bind_assoc {α β γ : Type} (x : R α) (f : α → R β) (g : β → 
     ((x >>= f) >>= g) = x >>= fun a => f a >>= g := by cases x <;> rfl
 theorem R_pure {α : Type} (a : α) : (pure a : R α) = .ok a := rfl
 
-/-- `discard_start`; the loop makes at most `len(rows)` tests, so `len(rows) ≤ fuel` is enough -/
+/-- `Gen.Imp.OverlapResult_discard_start` (`…_discard_end`) takes a `fuel` argument exactly when the source method contains a
+    `while` loop; a rewrite of the method with `for` (or no loop) drops the parameter.  `withFuel f fuel` is `f fuel` for a
+    generated function that takes fuel and `f` for one that does not (instance chosen by the TYPE of the generated function),
+    so that the tie is stated once for both shapes.  Both instances are reducible: `withFuel f fuel o` is `f fuel o` / `f o`
+    by `rfl` (`withFuel_fuel`, `withFuel_noFuel`). -/
+class TakesFuel (F : Type) where
+  withFuel : F → Nat → OverlapResult → R OverlapResult
+export TakesFuel (withFuel)
+@[reducible] instance instTakesFuelFuel : TakesFuel (Nat → OverlapResult → R OverlapResult) := ⟨fun f fuel => f fuel⟩
+@[reducible] instance instTakesFuelNoFuel : TakesFuel (OverlapResult → R OverlapResult) := ⟨fun f _ => f⟩
+
+theorem withFuel_fuel (f : Nat → OverlapResult → R OverlapResult) (fuel : Nat) (o : OverlapResult) :
+    withFuel f fuel o = f fuel o := rfl
+theorem withFuel_noFuel (f : OverlapResult → R OverlapResult) (fuel : Nat) (o : OverlapResult) :
+    withFuel f fuel o = f o := rfl
+
+/-- `discard_start`; a `while` loop makes at most `len(rows)` tests, so `len(rows) ≤ fuel` is enough (and no fuel is needed when
+    the source has no `while`) -/
 theorem discard_start_tie (o : OverlapResult) (fuel : Nat) (h : o.rows.length ≤ fuel) :
-    Gen.Imp.OverlapResult_discard_start fuel o = o.discardStart := by
+    withFuel Gen.Imp.OverlapResult_discard_start fuel o = o.discardStart := by
+  simp only [withFuel_fuel, withFuel_noFuel]
   unfold Gen.Imp.OverlapResult_discard_start discardStart
   cases hr : o.rows with
   | nil => simp [bind, Except.bind]
   | cons d r =>
     simp only [pop_zero_cons, bind, Except.bind]
-    rw [while_pop_front]
-    · intro s hs; simp [hs]
-    · intro s x t hs; simp [hs]
-    · intro s x t hs; simp [hs]
-    · rw [hr] at h; simp at h ⊢; omega
+    -- two algorithms: (A) pop the gaps one by one in a `while`; (B) count them in a `for … break`, then `del rows[:n]`
+    first
+    | (rw [while_pop_front]
+       · intro s hs; simp [hs]
+       · intro s x t hs; simp [hs]
+       · intro s x t hs; simp [hs]
+       · rw [hr] at h; simp at h ⊢; omega)
+    | (rw [forIn_gaps_add_count]
+       · simp [popLeadingGaps_snd, popLeadingGaps_fst_eq_dropWhile, slice_from_leading_gaps r _ rfl]
+         first | done | omega
+       · intro r a n hg; simp [hg]
+       · intro r a n hg; simp [hg])
 
 theorem discard_end_tie (o : OverlapResult) (fuel : Nat) (h : o.rows.length ≤ fuel) :
     Gen.Imp.OverlapResult_discard_end fuel o = o.discardEnd := by
